@@ -133,14 +133,48 @@ C07Indices(c, S) ==
          \cup When(S.leaves[i].acq_q = Cardinality(sameq), Fail("C07.qubit_level", i, <<S.leaves[i].acq_q, "expected", Cardinality(sameq)>>))
          : j \in 1..Len(ms)}
 
+\* filters: by qubit and by (qubit, tag) return precisely the indices of the matching measurements; tags partition
+C07Filters(c, S) ==
+  LET ms == SelectSeq(S.order, LAMBDA i : IsMeas(S, i))
+      idx(sel(_)) == LET sq == SelectSeq(ms, sel) IN [j \in 1..Len(sq) |-> S.leaves[sq[j]].acq_q]
+  IN UNION {LET r == S.by_q[j]
+                want == idx(LAMBDA i : S.leaves[i].qs[1] = r[1]) IN
+            When(r[2] = want, Fail("C07.filter.qubit", c, <<"qubit", r[1], "returned", r[2], "expected", want>>))
+            : j \in 1..Len(S.by_q)}
+     \cup UNION {LET r == S.by_tag[j]
+                   want == idx(LAMBDA i : S.leaves[i].qs[1] = r[1] /\ S.leaves[i].tag = r[2]) IN
+               When(r[3] = want, Fail("C07.filter.tag", c, <<"qubit", r[1], "tag", r[2], "returned", r[3], "expected", want>>))
+               : j \in 1..Len(S.by_tag)}
+     \cup UNION {LET r == S.by_q[j]
+                   parts == {k \in 1..Len(S.by_tag) : S.by_tag[k][1] = r[1]}
+                   all == UNION {Range(S.by_tag[k][3]) : k \in parts}
+                   RECURSIVE Sum(_)
+                   Sum(X) == IF X = {} THEN 0 ELSE LET x == CHOOSE y \in X : TRUE IN Len(S.by_tag[x][3]) + Sum(X \ {x}) IN
+               When(all = Range(r[2]) /\ Sum(parts) = Len(r[2]), Fail("C07.partition", c, <<"qubit", r[1]>>))
+               : j \in 1..Len(S.by_q)}
+     \cup (IF S.stim_m.status # "ok" THEN {}
+          ELSE When(S.stim_m.targets = [j \in 1..Len(ms) |-> S.leaves[ms[j]].qs[1]],
+                    Fail("C07.record_order", c, <<"exported measurement targets", S.stim_m.targets>>)))
+\* per qubit the indices increase with measurement start time (implicitly sequenced circuits free of channel overlaps)
+OverlapFree(S) ==
+  \A i, j \in DOMAIN S.leaves :
+     (i # j /\ S.leaves[i].dur_v > 0 /\ S.leaves[j].dur_v > 0 /\ AnyMatch(Range(S.leaves[i].chans), Range(S.leaves[j].chans)))
+       => (S.leaves[i].end <= S.leaves[j].start \/ S.leaves[j].end <= S.leaves[i].start)
+C07Monotone(c, S) ==
+  IF ~OverlapFree(S) THEN {}
+  ELSE UNION {IF IsMeas(S, i) /\ IsMeas(S, j) /\ S.leaves[i].qs = S.leaves[j].qs /\ S.leaves[i].start < S.leaves[j].start
+              THEN When(S.leaves[i].acq_q < S.leaves[j].acq_q, Fail("C07.monotone", j, <<"earlier", i>>)) ELSE {}
+              : i \in DOMAIN S.leaves, j \in DOMAIN S.leaves}
+
 \* --------------------------------------------------------------------- C06 (observable part)
 C06Reset(c, S) == UNION {When(S.comps[b].nrep = 1, Fail("C06.reset", b, S.comps[b].nrep)) : b \in DOMAIN S.comps}
 
 \* ------------------------------------------------- the battery for one observation
-ObsClauses(H, E, c, S, applied) ==
+ObsClauses(H, E, c, S, flags) ==
   C02Complete(H, c, S) \cup C02Stable(c, S) \cup C02Contig(H, c, S) \cup C02Causal(H, c, S) \cup C02CausalReported(H, c, S)
   \cup C01Eq(H, c, S) \cup C01Dur(H, E, c, S) \cup C04Span(H, c, S) \cup C04Followers(H, c, S) \cup C03Memo(S)
-  \cup (IF applied THEN C07Indices(c, S) \cup C06Reset(c, S) ELSE {})
+  \cup (IF flags.applied THEN C07Indices(c, S) \cup C07Filters(c, S) \cup C06Reset(c, S) ELSE {})
+  \cup (IF flags.applied /\ flags.implicit THEN C07Monotone(c, S) ELSE {})
 
 \* The same battery judged on the memo-free re-evaluation of the times.  A clause that fails on the reported
 \* values but holds on the fresh ones is marked memo = TRUE: the equation is right, the reported value is stale
@@ -149,10 +183,10 @@ ColdView(S) ==
   [S EXCEPT !.leaves = [i \in DOMAIN S.leaves |-> [S.leaves[i] EXCEPT !.start = S.leaves[i].start_c, !.end = S.leaves[i].start_c + S.leaves[i].dur_v]],
             !.comps  = [b \in DOMAIN S.comps |-> [S.comps[b] EXCEPT !.start = S.comps[b].start_c, !.dur_v = S.comps[b].dur_c,
                                                                       !.end = S.comps[b].start_c + S.comps[b].dur_c]]]
-ObsClausesMarked(H, E, c, S, applied) ==
-  LET W == ObsClauses(H, E, c, S, applied) IN
+ObsClausesMarked(H, E, c, S, flags) ==
+  LET W == ObsClauses(H, E, c, S, flags) IN
   IF C03Memo(S) = {} THEN W
-  ELSE LET C == ObsClauses(H, E, c, ColdView(S), applied)
+  ELSE LET C == ObsClauses(H, E, c, ColdView(S), flags)
            same(f, g) == f.clause = g.clause /\ f.obj = g.obj
        IN {[f EXCEPT !.memo = ~(\E g \in C : same(f, g))] : f \in W}
           \cup {g \in C : ~(\E f \in W : same(f, g))}
@@ -163,9 +197,9 @@ SpecSnapshot(H, E, c) ==
   LET order == LeavesOf(H, c)
       meas(i) == H[i].kind = "DispersiveMeasure"
       mseq == SelectSeq(order, meas) IN
-  [top |-> c, order |-> order, order2 |-> order,
+  [top |-> c, order |-> order, order2 |-> order, by_q |-> <<>>, by_tag |-> <<>>, stim_m |-> [status |-> "none", targets |-> <<>>],
    leaves |-> [i \in Range(order) |->
-      [kind |-> H[i].kind, qs |-> H[i].qs, dur |-> H[i].dur, tag |-> H[i].tag, pos |-> IndexIn(order, i), home |-> H[i].home, rlink |-> H[i].link,
+      [kind |-> H[i].kind, qs |-> H[i].qs, chans |-> H[i].chans, dur |-> H[i].dur, tag |-> H[i].tag, pos |-> IndexIn(order, i), home |-> H[i].home, rlink |-> H[i].link,
        start |-> StartOf(H, E, i), dur_v |-> DurOf(H, E, i), end |-> EndOf(H, E, i), start_c |-> StartOf(H, E, i),
        acq_c |-> IF meas(i) THEN IndexIn(mseq, i) - 1 ELSE -2,
        acq_q |-> IF meas(i) THEN Cardinality({k \in 1..(IndexIn(mseq, i) - 1) : H[mseq[k]].qs = H[i].qs}) ELSE -2]],
